@@ -395,6 +395,20 @@ class Interp:
     def ex_BoolOp(self, frame, e):
         # Python semantics: returns the deciding operand
         is_and = isinstance(e.op, ast.And)
+        if id(e) in (self.ctx.ghost.get("truth_only") or ()):
+            # inside all(...) / any(...) over a sequence of unknown length only the TRUTH of the element expression matters, and the expression
+            # is pure: `a and b` / `a or b` is the conjunction / disjunction of the operands' truth values - no fork on the generic element
+            ts = []
+            for k, sub in enumerate(e.values):
+                try:
+                    t = self.ctx.truth(self.eval(frame, sub))
+                except PyRaise:
+                    if k == 0:
+                        raise
+                    # a later operand raises when evaluated unconditionally: Python's short-circuit may be what protects it - not handled here
+                    raise Unsupported("boolean operator whose later operand can raise (short-circuit evaluation matters)")
+                ts.append(z3.BoolVal(t) if isinstance(t, bool) else t)
+            return SV(Z.mk_bool(z3.And(*ts) if is_and else z3.Or(*ts)), TBool())
         v = None
         for i, sub in enumerate(e.values):
             v = self.eval(frame, sub)
